@@ -75,8 +75,8 @@ theorem compile_total_call_ls {self h : String} {args : List Expr} (hh : (h != "
   · rw [if_neg hc]
     exact ⟨_, gs, rfl, by simp, KeepFns.refl _, Nat.le_refl _, by lsin⟩
 
-/-- a statement before the last one of a body -/
-theorem total_stmt {ex : Bool} {self : String} {e : Expr} (he : (if ex then Fx [] self e else Ff true self e) = true)
+/-- a statement before the last one of a body: a form of F2 resp. Fx -/
+theorem total_stmt0 {ex : Bool} {self : String} {e : Expr} (he : (if ex then Fx [] self e else Ff true self e) = true)
     (isFn : Nat → Bool) (c : Ctx) (gs : GS) (hfn : FnameOk self c) (hex : ex = true → gs.loopstack = []) :
     ∃ code t gs', (compile isFn c e).run gs = .ok ((code, t), gs') ∧ code ≠ [] ∧ TotX gs gs' code := by
   cases ex with
@@ -151,18 +151,55 @@ theorem compile_total_Fz : ∀ (ex : Bool) (self : String) (e : Expr), Fz ex sel
       lsin
   | ex, self, .for_ l i t st b, he, isFn, c, gs, hfn, hex => by
     rw [Fz] at he
-    exact total_stmt he isFn c gs hfn hex
+    exact total_stmt0 he isFn c gs hfn hex
   | ex, self, .int v, he, isFn, c, gs, hfn, hex | ex, self, .bool v, he, isFn, c, gs, hfn, hex
   | ex, self, .str v, he, isFn, c, gs, hfn, hex | ex, self, .nilLit, he, isFn, c, gs, hfn, hex
   | ex, self, .sym x, he, isFn, c, gs, hfn, hex | ex, self, .arr es, he, isFn, c, gs, hfn, hex
   | ex, self, .def_ x e, he, isFn, c, gs, hfn, hex | ex, self, .set_ x e, he, isFn, c, gs, hfn, hex
   | ex, self, .and_ es, he, isFn, c, gs, hfn, hex | ex, self, .or_ es, he, isFn, c, gs, hfn, hex
-  | ex, self, .fn _ _ _, he, isFn, c, gs, hfn, hex | ex, self, .defn _ _ _ _, he, isFn, c, gs, hfn, hex => by
+  | ex, self, .fn _ _ _, he, isFn, c, gs, hfn, hex => by
     rw [Fz] at he
     exact total_of_Ff he isFn c gs hfn
+  | ex, self, .defn name ps rest body, he, isFn, c, gs, hfn, hex => by
+    rw [Fz] at he
+    simp only [Bool.or_eq_true] at he
+    rcases he with he | he
+    · exact total_of_Ff he isFn c gs hfn
+    · simp only [Bool.and_eq_true, bne_iff_ne, ne_eq, decide_eq_true_eq, Bool.not_eq_true', List.isEmpty_eq_false_iff] at he
+      obtain ⟨b, tl, g2, hb, _, hk2⟩ := compileBegin_total_Fz ex name body he.1.2 he.2 isFn (bodyCtx c gs name ps rest body)
+        (gsAlloc isFn gs name ps rest) (bodyCtx_funcname c gs name ps rest body) hex
+      exact ⟨_, _, _, compile_defn_eq isFn c name ps rest body gs g2 b tl he.1.1.1.1.2 hb, by simp,
+        keepFns_fin isFn gs g2 _ ps rest b hk2.1, hk2.2.1, by lsin⟩
   | ex, self, .assign _ _, he, _, _, _, _, _ | ex, self, .bad _, he, _, _, _, _, _
   | ex, self, .break_ _, he, _, _, _, _, _ | ex, self, .continue_ _, he, _, _, _, _, _ => by
     simp [Fz] at he
+/-- a statement before the last one of a body -/
+theorem total_stmt : ∀ (ex : Bool) (self : String) (e : Expr), Fs ex self e = true → ∀ isFn c gs, FnameOk self c →
+    (ex = true → gs.loopstack = []) →
+    ∃ code t gs', (compile isFn c e).run gs = .ok ((code, t), gs') ∧ code ≠ [] ∧ TotX gs gs' code
+  | ex, self, .defn name ps rest body, he, isFn, c, gs, hfn, hex => by
+    rw [Fs] at he
+    simp only [Bool.or_eq_true] at he
+    rcases he with he | he
+    · exact total_stmt0 he isFn c gs hfn hex
+    · simp only [Bool.and_eq_true, bne_iff_ne, ne_eq, decide_eq_true_eq, Bool.not_eq_true', List.isEmpty_eq_false_iff] at he
+      obtain ⟨b, tl, g2, hb, _, hk2⟩ := compileBegin_total_Fz ex name body he.1.2 he.2 isFn (bodyCtx c gs name ps rest body)
+        (gsAlloc isFn gs name ps rest) (bodyCtx_funcname c gs name ps rest body) hex
+      exact ⟨_, _, _, compile_defn_eq isFn c name ps rest body gs g2 b tl he.1.1.1.1.2 hb, by simp,
+        keepFns_fin isFn gs g2 _ ps rest b hk2.1, hk2.2.1, by lsin⟩
+  | ex, self, .call _ _, he, isFn, c, gs, hfn, hex | ex, self, .begin_ _, he, isFn, c, gs, hfn, hex
+  | ex, self, .cond _ _, he, isFn, c, gs, hfn, hex | ex, self, .newScope _, he, isFn, c, gs, hfn, hex
+  | ex, self, .let_ _ _ _, he, isFn, c, gs, hfn, hex | ex, self, .for_ _ _ _ _ _, he, isFn, c, gs, hfn, hex
+  | ex, self, .int _, he, isFn, c, gs, hfn, hex | ex, self, .bool _, he, isFn, c, gs, hfn, hex
+  | ex, self, .str _, he, isFn, c, gs, hfn, hex | ex, self, .nilLit, he, isFn, c, gs, hfn, hex
+  | ex, self, .sym _, he, isFn, c, gs, hfn, hex | ex, self, .arr _, he, isFn, c, gs, hfn, hex
+  | ex, self, .def_ _ _, he, isFn, c, gs, hfn, hex | ex, self, .set_ _ _, he, isFn, c, gs, hfn, hex
+  | ex, self, .and_ _, he, isFn, c, gs, hfn, hex | ex, self, .or_ _, he, isFn, c, gs, hfn, hex
+  | ex, self, .fn _ _ _, he, isFn, c, gs, hfn, hex | ex, self, .assign _ _, he, isFn, c, gs, hfn, hex
+  | ex, self, .bad _, he, isFn, c, gs, hfn, hex | ex, self, .break_ _, he, isFn, c, gs, hfn, hex
+  | ex, self, .continue_ _, he, isFn, c, gs, hfn, hex => by
+    rw [Fs] at he
+    exact total_stmt0 he isFn c gs hfn hex
 theorem compileBegin_total_Fz : ∀ (ex : Bool) (self : String) (es : List Expr), es ≠ [] → FzList ex self es = true →
     ∀ isFn c gs, FnameOk self c → (ex = true → gs.loopstack = []) →
     ∃ code t gs', (compileBegin isFn c es).run gs = .ok ((code, t), gs') ∧ code ≠ [] ∧ TotX gs gs' code
@@ -175,7 +212,7 @@ theorem compileBegin_total_Fz : ∀ (ex : Bool) (self : String) (es : List Expr)
     rw [FzList] at he
     simp only [Bool.and_eq_true] at he
     have hfn' : FnameOk self { c with tail := false } := hfn
-    obtain ⟨a, ta, g1, ha, hane, hf1⟩ := total_stmt he.1 isFn { c with tail := false } gs hfn' hex
+    obtain ⟨a, ta, g1, ha, hane, hf1⟩ := total_stmt ex self e he.1 isFn { c with tail := false } gs hfn' hex
     obtain ⟨b, tb, g2, hb, _, hf2⟩ := compileBegin_total_Fz ex self (e' :: es) (by simp) he.2 isFn c g1 hfn
       (fun h => by rw [hf1.1.loopstack]; exact hex h)
     refine ⟨a ++ (if a.isEmpty then [] else [.pop]) ++ b, tb, g2, ?_, by simp [hane],
@@ -196,7 +233,7 @@ theorem compileNewScope_total_Fz : ∀ (ex : Bool) (self : String) (es : List Ex
     rw [FzList] at he
     simp only [Bool.and_eq_true] at he
     have hfn' : FnameOk self { c with tail := false } := hfn
-    obtain ⟨a, ta, g1, ha, hane, hf1⟩ := total_stmt he.1 isFn { c with tail := false } gs hfn' hex
+    obtain ⟨a, ta, g1, ha, hane, hf1⟩ := total_stmt ex self e he.1 isFn { c with tail := false } gs hfn' hex
     obtain ⟨b, tb, g2, hb, _, hf2⟩ := compileNewScope_total_Fz ex self (e' :: es) (by simp) he.2 isFn c oldtail g1 hfn
       (fun h => by rw [hf1.1.loopstack]; exact hex h)
     refine ⟨a ++ [.pop] ++ b, tb, g2, ?_, by simp, TotX.seq hf1 hf2 (fun x y hx hy => by lsin)⟩
@@ -228,10 +265,10 @@ theorem compileArms_total_Fz : ∀ (ex : Bool) (self : String) (arms : List (Exp
           (hin1 x hx).2.mono (Nat.le_refl _) (Nat.le_trans hf2.2.1 hf3.2.1)⟩
 end
 
-theorem tot_stmt {ex : Bool} {self : String} {e : Expr} (he : (if ex then Fx [] self e else Ff true self e) = true)
+theorem tot_stmt {ex : Bool} {self : String} {e : Expr} (he : Fs ex self e = true)
     {isFn c gs r} (hfn : FnameOk self c) (hex : ex = true → gs.loopstack = []) (h : (compile isFn c e).run gs = .ok r) :
     r.1.1 ≠ [] ∧ TotX gs r.2 r.1.1 := by
-  obtain ⟨code, t, g1, h1, hne, hk⟩ := total_stmt he isFn c gs hfn hex
+  obtain ⟨code, t, g1, h1, hne, hk⟩ := total_stmt ex self e he isFn c gs hfn hex
   rw [h1] at h; injection h with h; subst h; exact ⟨hne, hk⟩
 
 theorem compile_tot_Fz {ex : Bool} {self : String} {e : Expr} (he : Fz ex self e = true) {isFn c gs r} (hfn : FnameOk self c)
@@ -355,30 +392,30 @@ theorem exec_prepareCall_clo (f : Nat) (x : String) (rest : Option String) (nfix
 /-! ## The outcome "the activation returned" -/
 
 /-- what `FClaimU` says of a whole call of the activation entered from `s₁`, seen from a state inside it -/
-def RetOut (s₁ : St) (env : Nat) (D : List (Option Val)) (m : Nat → Nat) (s : St) (rs : Ref.St) (v' : Val) (rs' : Ref.St) :
+def RetOut (s₁ : St) (env : Nat) (D : List (Option Val)) (f₀ : Nat) (m : Nat → Nat) (s : St) (rs : Ref.St) (v' : Val) (rs' : Ref.St) :
     Prop :=
   ∃ (s' : St) (m' : Nat → Nat) (v : Val), ReachX s s' ∧ s'.pc = s₁.pc + 1 ∧ s'.data = some v :: D ∧ v' = trf m' v
-    ∧ RelF m' s' rs' env ∧ MExt s m m' ∧ RExt rs rs' ∧ FrameF s₁ s' ∧ VOk m' s' rs' v
+    ∧ RelF m' (s'.withCur f₀) rs' env ∧ MExt s m m' ∧ RExt rs rs' ∧ FrameF s₁ s' ∧ VOk m' s' rs' v
 
-theorem RetOut.of_reach {s₁ : St} {env : Nat} {D : List (Option Val)} {m m₂ : Nat → Nat} {s s₂ : St} {rs rs₂ rs' : Ref.St}
+theorem RetOut.of_reach {s₁ : St} {env : Nat} {D : List (Option Val)} {f₀ : Nat} {m m₂ : Nat → Nat} {s s₂ : St} {rs rs₂ rs' : Ref.St}
     {v' : Val} (hr : ReachX s s₂) (hm : MExt s m m₂) (hfl : s.fns.length ≤ s₂.fns.length) (hext : RExt rs rs₂)
-    (h : RetOut s₁ env D m₂ s₂ rs₂ v' rs') : RetOut s₁ env D m s rs v' rs' := by
+    (h : RetOut s₁ env D f₀ m₂ s₂ rs₂ v' rs') : RetOut s₁ env D f₀ m s rs v' rs' := by
   obtain ⟨s', m', v, r, hpc, hd, hv, rel, hm', ext, fr, hcl⟩ := h
   exact ⟨s', m', v, hr.trans r, hpc, hd, hv, rel, hm.trans hm' hfl, hext.trans ext, fr, hcl⟩
 
 /-- as `SimF`; a value may also be delivered by the return of the whole activation -/
-def SimT (code : List Instr) (s₁ : St) (env : Nat) (D : List (Option Val)) (m : Nat → Nat) (s : St) (rs : Ref.St)
+def SimT (code : List Instr) (s₁ : St) (env : Nat) (D : List (Option Val)) (f₀ : Nat) (m : Nat → Nat) (s : St) (rs : Ref.St)
     (cenv : Nat) (res : Ref.R Val) : Prop :=
   match res with
   | .ok v' rs' => (∃ s' m' v, ReachX s s' ∧ Lands code.length v s s' ∧ v' = trf m' v ∧ RelF m' s' rs' cenv
-      ∧ MExt s m m' ∧ RExt rs rs' ∧ FrameF s s' ∧ VOk m' s' rs' v) ∨ RetOut s₁ env D m s rs v' rs'
+      ∧ MExt s m m' ∧ RExt rs rs' ∧ FrameF s s' ∧ VOk m' s' rs' v) ∨ RetOut s₁ env D f₀ m s rs v' rs'
   | .err rs' => FailsX s rs'.trace
   | .timeout => True
   | .brk _ _ => False
   | .cont _ _ => False
 
-theorem SimF.toT {code : List Instr} {s₁ : St} {env : Nat} {D : List (Option Val)} {m : Nat → Nat} {s : St} {rs : Ref.St}
-    {cenv : Nat} {res : Ref.R Val} (h : SimF code m s rs cenv res) : SimT code s₁ env D m s rs cenv res := by
+theorem SimF.toT {code : List Instr} {s₁ : St} {env : Nat} {D : List (Option Val)} {f₀ : Nat} {m : Nat → Nat} {s : St} {rs : Ref.St}
+    {cenv : Nat} {res : Ref.R Val} (h : SimF code m s rs cenv res) : SimT code s₁ env D f₀ m s rs cenv res := by
   cases res with
   | ok v rs' => exact Or.inl h
   | err rs' => exact h
@@ -386,10 +423,10 @@ theorem SimF.toT {code : List Instr} {s₁ : St} {env : Nat} {D : List (Option V
   | brk l rs' => exact h
   | cont l rs' => exact h
 
-theorem SimT.seq {code c₂ : List Instr} {s₁ : St} {env : Nat} {D : List (Option Val)} {m m₁ : Nat → Nat} {s s₁' : St}
+theorem SimT.seq {code c₂ : List Instr} {s₁ : St} {env : Nat} {D : List (Option Val)} {f₀ : Nat} {m m₁ : Nat → Nat} {s s₁' : St}
     {rs rs₁ : Ref.St} {cenv k : Nat} {res : Ref.R Val} (hreach : ReachX s s₁') (hmoved : Moved k s s₁') (hm : MExt s m m₁)
-    (hext : RExt rs rs₁) (hframe : FrameF s s₁') (h₂ : SimT c₂ s₁ env D m₁ s₁' rs₁ cenv res) (hk : k + c₂.length = code.length) :
-    SimT code s₁ env D m s rs cenv res := by
+    (hext : RExt rs rs₁) (hframe : FrameF s s₁') (h₂ : SimT c₂ s₁ env D f₀ m₁ s₁' rs₁ cenv res) (hk : k + c₂.length = code.length) :
+    SimT code s₁ env D f₀ m s rs cenv res := by
   cases res with
   | ok v rs' =>
     rcases h₂ with h | h
@@ -400,12 +437,12 @@ theorem SimT.seq {code c₂ : List Instr} {s₁ : St} {env : Nat} {D : List (Opt
   | brk l rs' => exact h₂
   | cont l rs' => exact h₂
 
-theorem SimT.cond_exit {p b rest pre post : List Instr} {s₁ : St} {env : Nat} {D : List (Option Val)} {m m₁ : Nat → Nat}
+theorem SimT.cond_exit {p b rest pre post : List Instr} {s₁ : St} {env : Nat} {D : List (Option Val)} {f₀ : Nat} {m m₁ : Nat → Nat}
     {s s₁' : St} {rs rs₁ : Ref.St} {cenv : Nat} {res : Ref.R Val}
     (h : Seg s pre (p ++ [.branch false (b.length + 2)] ++ b ++ [.jump (rest.length + 1)] ++ rest) post)
     (hreach : ReachX s s₁') (hmoved : Moved (p.length + 1) s s₁') (hm : MExt s m m₁) (hext : RExt rs rs₁)
-    (hframe : FrameF s s₁') (h₂ : SimT b s₁ env D m₁ s₁' rs₁ cenv res) :
-    SimT (p ++ [.branch false (b.length + 2)] ++ b ++ [.jump (rest.length + 1)] ++ rest) s₁ env D m s rs cenv res := by
+    (hframe : FrameF s s₁') (h₂ : SimT b s₁ env D f₀ m₁ s₁' rs₁ cenv res) :
+    SimT (p ++ [.branch false (b.length + 2)] ++ b ++ [.jump (rest.length + 1)] ++ rest) s₁ env D f₀ m s rs cenv res := by
   cases res with
   | ok v rs' =>
     rcases h₂ with h' | h'
@@ -416,11 +453,11 @@ theorem SimT.cond_exit {p b rest pre post : List Instr} {s₁ : St} {env : Nat} 
   | brk l rs' => exact h₂
   | cont l rs' => exact h₂
 
-theorem SimT.scoped {inner pre post : List Instr} {s₁ : St} {env : Nat} {D : List (Option Val)} {m : Nat → Nat} {s : St}
+theorem SimT.scoped {inner pre post : List Instr} {s₁ : St} {env : Nat} {D : List (Option Val)} {f₀ : Nat} {m : Nat → Nat} {s : St}
     {rs : Ref.St} {cenv : Nat} {res : Ref.R Val} (h : Seg s pre ([.addScope] ++ inner ++ [.removeScope]) post)
     (hrel : RelF m s rs cenv)
-    (hin : SimT inner s₁ env D m s.pushScope (Ref.newFrame rs cenv).2 rs.frames.length res) :
-    SimT ([.addScope] ++ inner ++ [.removeScope]) s₁ env D m s rs cenv res := by
+    (hin : SimT inner s₁ env D f₀ m s.pushScope (Ref.newFrame rs cenv).2 rs.frames.length res) :
+    SimT ([.addScope] ++ inner ++ [.removeScope]) s₁ env D f₀ m s rs cenv res := by
   have hr1 := (glue_addScope h).1
   cases res with
   | ok v rs3 =>
@@ -436,9 +473,9 @@ theorem SimT.scoped {inner pre post : List Instr} {s₁ : St} {env : Nat} {D : L
 
 /-- the state `s` is inside the activation of closure object `vid` entered from `s₁` (arguments popped,
 `D` below them): what is needed to re-enter the function from a tail position, `sc` block scopes open -/
-structure InAct (m₁ : Nat → Nat) (s₁ : St) (rs₁ : Ref.St) (env vid : Nat) (D : List (Option Val)) (sc : Nat)
+structure InAct (m₁ : Nat → Nat) (s₁ : St) (rs₁ : Ref.St) (env vid : Nat) (D : List (Option Val)) (f₀ : Nat) (sc : Nat)
     (m : Nat → Nat) (s : St) (rs : Ref.St) : Prop where
-  rel₁ : RelF m₁ s₁ rs₁ env
+  rel₁ : RelF m₁ (s₁.withCur f₀) rs₁ env
   good : GoodFn m₁ s₁ rs₁ vid
   cur : s.curfunc = vid
   addr : s.addr = some (s₁.curfunc, s₁.pc + 1) :: s₁.addr
@@ -454,9 +491,9 @@ structure InAct (m₁ : Nat → Nat) (s₁ : St) (rs₁ : Ref.St) (env vid : Nat
   mext : MExt s₁ m₁ m
   rext : RExt rs₁ rs
 
-theorem InAct.after {m₁ : Nat → Nat} {s₁ : St} {rs₁ : Ref.St} {env vid : Nat} {D : List (Option Val)} {sc : Nat}
-    {m m' : Nat → Nat} {s s' : St} {rs rs' : Ref.St} (h : InAct m₁ s₁ rs₁ env vid D sc m s rs) (fr : FrameF s s')
-    (hd : s'.data = s.data) (hm : MExt s m m') (ext : RExt rs rs') : InAct m₁ s₁ rs₁ env vid D sc m' s' rs' :=
+theorem InAct.after {m₁ : Nat → Nat} {s₁ : St} {rs₁ : Ref.St} {env vid : Nat} {D : List (Option Val)} {f₀ : Nat} {sc : Nat}
+    {m m' : Nat → Nat} {s s' : St} {rs rs' : Ref.St} (h : InAct m₁ s₁ rs₁ env vid D f₀ sc m s rs) (fr : FrameF s s')
+    (hd : s'.data = s.data) (hm : MExt s m m') (ext : RExt rs rs') : InAct m₁ s₁ rs₁ env vid D f₀ sc m' s' rs' :=
   ⟨h.rel₁, h.good, by rw [fr.curfunc]; exact h.cur, by rw [fr.addr]; exact h.addr, by rw [fr.susp]; exact h.susp,
     by rw [hd]; exact h.data, by rw [fr.linear]; exact h.lin, Nat.le_trans h.fnsLen fr.fnsLen,
     fun id hid => (fr.fns id (Nat.lt_of_lt_of_le hid h.fnsLen)).trans (h.fns id hid),
@@ -466,14 +503,14 @@ theorem InAct.after {m₁ : Nat → Nat} {s₁ : St} {rs₁ : Ref.St} {env vid :
     fun i hi => (fr.flags i (Nat.lt_of_lt_of_le hi h.scLen)).trans (h.flags i hi),
     h.mext.trans hm h.fnsLen, h.rext.trans ext⟩
 
-theorem InAct.moved {m₁ : Nat → Nat} {s₁ : St} {rs₁ : Ref.St} {env vid : Nat} {D : List (Option Val)} {sc k : Nat}
-    {m m' : Nat → Nat} {s s' : St} {rs rs' : Ref.St} (h : InAct m₁ s₁ rs₁ env vid D sc m s rs) (mv : Moved k s s')
-    (fr : FrameF s s') (hm : MExt s m m') (ext : RExt rs rs') : InAct m₁ s₁ rs₁ env vid D sc m' s' rs' :=
+theorem InAct.moved {m₁ : Nat → Nat} {s₁ : St} {rs₁ : Ref.St} {env vid : Nat} {D : List (Option Val)} {f₀ : Nat} {sc k : Nat}
+    {m m' : Nat → Nat} {s s' : St} {rs rs' : Ref.St} (h : InAct m₁ s₁ rs₁ env vid D f₀ sc m s rs) (mv : Moved k s s')
+    (fr : FrameF s s') (hm : MExt s m m') (ext : RExt rs rs') : InAct m₁ s₁ rs₁ env vid D f₀ sc m' s' rs' :=
   h.after fr mv.data hm ext
 
-theorem InAct.pushScope {m₁ : Nat → Nat} {s₁ : St} {rs₁ : Ref.St} {env vid : Nat} {D : List (Option Val)} {sc : Nat}
-    {m : Nat → Nat} {s : St} {rs : Ref.St} (h : InAct m₁ s₁ rs₁ env vid D sc m s rs) (cenv : Nat) :
-    InAct m₁ s₁ rs₁ env vid D (sc + 1) m s.pushScope (Ref.newFrame rs cenv).2 := by
+theorem InAct.pushScope {m₁ : Nat → Nat} {s₁ : St} {rs₁ : Ref.St} {env vid : Nat} {D : List (Option Val)} {f₀ : Nat} {sc : Nat}
+    {m : Nat → Nat} {s : St} {rs : Ref.St} (h : InAct m₁ s₁ rs₁ env vid D f₀ sc m s rs) (cenv : Nat) :
+    InAct m₁ s₁ rs₁ env vid D f₀ (sc + 1) m s.pushScope (Ref.newFrame rs cenv).2 := by
   obtain ⟨extra, hl, hlen⟩ := h.lin
   exact ⟨h.rel₁, h.good, h.cur, h.addr, h.susp, h.data,
     ⟨some s.scopes.length :: extra, by show some s.scopes.length :: s.linear = _; rw [hl]; rfl, by simp [hlen]⟩,
@@ -493,28 +530,78 @@ theorem KnownOk.keep {c c' : Ctx} {gs gs' : GS} {ps : List String} {rest : Optio
 
 /-! ## Operands compiled inline -/
 
+/-- the positions the generator delays for this callee -/
+def isLazyGen (f : Option FnObj) (j : Nat) : Bool :=
+  match f with
+  | some fo => fo.isLazyCallArg j
+  | none => false
+
+theorem exec_pushLazy (f : Nat) (e : Expr) (s : St) :
+    (exec (f + 1) (.pushLazy e)).run s = (.ok (), (s.allocLazy e).jmp (s.pc + 1) (s.allocLazy e).data) := by
+  rw [exec]; rfl
+
+/-- operands compiled inline: a delayed one is one instruction that makes the lazy argument object -/
 def TClaimV (n : Nat) : Prop :=
-  ∀ self args, FfList false self args = true → ∀ isFn c f i gs r, (compileCallArgs isFn c f i args).run gs = .ok r →
-    FnameOk self c → (∀ fo, f = some fo → ∀ j, fo.isLazyCallArg j = false) →
+  ∀ self args, FfList false self args = true → FaList args = true →
+    ∀ isFn c f i gs r, (compileCallArgs isFn c f i args).run gs = .ok r →
+    FnameOk self c → ∀ lazyAt : Nat → Bool, (∀ j, isLazyGen f j = lazyAt j) →
     ∀ m s rs env pre post, RelF m s rs env → Seg s pre r.1 post →
-      SimFL r.1 m s rs env (Ref.evalList n args env rs)
+      SimFL r.1 m s rs env (Ref.evalArgs n args i lazyAt env rs)
 
 theorem tclaimV_succ {n : Nat} (hE : FClaimE n) (hV : TClaimV n) : TClaimV (n + 1) := by
-  intro self args hargs isFn c f i gs r hc hfn hlz m s rs env pre post hrel hseg
+  intro self args hargs hfa isFn c f i gs r hc hfn lazyAt hlz m s rs env pre post hrel hseg
   match args with
   | [] =>
     rw [compileCallArgs.eq_def] at hc; simp only [g_pure_ok] at hc; subst hc
-    rw [Ref.evalList]
+    rw [Ref.evalArgs]
     · exact ⟨s, m, [], ReachX.refl s, rfl, by simp, by simp, rfl, hrel, MExt.refl s m, RExt.refl rs, FrameF.refl s,
         fun v hv => by cases hv⟩
     · omega
   | e :: es' =>
     rw [FfList] at hargs
-    simp only [Bool.and_eq_true] at hargs
-    rw [compileCallArgs_cons_run (fun fo hfo => hlz fo hfo i)] at hc
+    rw [FaList] at hfa
+    simp only [Bool.and_eq_true] at hargs hfa
+    rw [Ref.evalArgs]
+    by_cases hl : lazyAt i = true
+    · -- a delayed operand
+      simp only [hl, if_true]
+      obtain ⟨fo, rfl, hfo⟩ : ∃ fo, f = some fo ∧ fo.isLazyCallArg i = true := by
+        have := hlz i; rw [hl] at this
+        cases f with
+        | none => cases this
+        | some fo => exact ⟨fo, rfl, this⟩
+      rw [compileCallArgs_cons_lazy hfo] at hc
+      obtain ⟨rb, hb, hcode⟩ := hc
+      rw [hcode] at hseg ⊢
+      have hid : s.lazies.length = rs.thunks.length := hrel.lz.1
+      have a0 : At s pre (.pushLazy e) (rb ++ post) := (hseg.refocus (c' := [.pushLazy e]) (post' := rb ++ post) (by simp)).head
+      have r1 : ReachX s ((s.allocLazy e).jmp (s.pc + 1) (s.allocLazy e).data) :=
+        (Reach.step a0 (fun f => exec_pushLazy f e s)).toX
+      have l1 : Lands [Instr.pushLazy e].length (.lazy s.lazies.length) s ((s.allocLazy e).jmp (s.pc + 1) (s.allocLazy e).data) :=
+        ⟨rfl, by simp, rfl⟩
+      have hrelA := (hrel.allocLazy e hfa.1).jmp (s.pc + 1) (s.allocLazy e).data
+      have hfrA : FrameF s ((s.allocLazy e).jmp (s.pc + 1) (s.allocLazy e).data) :=
+        ⟨⟨rfl, rfl, rfl, rfl, Nat.le_refl _, fun _ _ => rfl, Nat.le_refl _, fun _ _ => rfl⟩, Nat.le_refl _, fun _ _ => rfl⟩
+      have hextA : RExt rs (allocThunkR rs e env) := ⟨fun i fr hf => ⟨fr, hf, rfl⟩, fun _ _ hc => hc⟩
+      have ih2 := hV self es' hargs.2 hfa.2 isFn _ (some fo) (i + 1) gs (rb, r.2) hb hfn lazyAt hlz m _ (allocThunkR rs e env) env
+        (pre ++ [.pushLazy e]) post hrelA (hseg.move l1.fn (by simp) (by rw [l1.pc, hseg.pc]; simp))
+      show (match (match Ref.evalArgs n es' (i + 1) lazyAt env (allocThunkR rs e env) with
+          | .ok vs s => Ref.R.ok (Val.lazy rs.thunks.length :: vs) s | r => r) with
+        | .ok vs' rs' => _ | .err rs' => _ | .timeout => _ | .brk _ _ => _ | .cont _ _ => _)
+      cases h2 : Ref.evalArgs n es' (i + 1) lazyAt env (allocThunkR rs e env) with
+      | ok vs' rs2 =>
+        rw [h2] at ih2
+        rw [← hid]
+        exact simFL_cons (w1 := .lazy s.lazies.length) rfl r1 l1 (MExt.refl _ _) hextA hfrA (valIn_of_const (fun _ _ _ => rfl)) ih2
+      | err rs2 => rw [h2] at ih2; exact (FailsX.of_reach r1 ih2)
+      | timeout => trivial
+      | brk l rs2 => rw [h2] at ih2; exact ih2.elim
+      | cont l rs2 => rw [h2] at ih2; exact ih2.elim
+    have hl' : lazyAt i = false := by simpa using hl
+    simp only [hl', Bool.false_eq_true, if_false]
+    rw [compileCallArgs_cons_run (fun fo hfo => by have := hlz i; rw [hl', hfo] at this; exact this)] at hc
     obtain ⟨ra, g1, rb, ha, hb, hcode⟩ := hc
     rw [hcode] at hseg ⊢
-    rw [Ref.evalList]
     have ih := hE false self e hargs.1 isFn _ gs (ra, g1) ha hfn m s rs env pre (rb ++ post) hrel
       (fun h => by cases h) (hseg.refocus (by simp))
     cases h1 : Ref.eval n e env rs with
@@ -522,10 +609,10 @@ theorem tclaimV_succ {n : Nat} (hE : FClaimE n) (hV : TClaimV n) : TClaimV (n + 
       rw [h1] at ih
       obtain ⟨s1, m1, w1, r1, l1, hv1, rel1, hm1, ext1, fr1, hcl1⟩ := ih
       simp only
-      have ih2 := hV self es' hargs.2 isFn _ f (i + 1) g1 (rb, r.2) hb hfn hlz m1 s1 rs1 env (pre ++ ra.1) post rel1
+      have ih2 := hV self es' hargs.2 hfa.2 isFn _ f (i + 1) g1 (rb, r.2) hb hfn lazyAt hlz m1 s1 rs1 env (pre ++ ra.1) post rel1
         (hseg.move l1.fn (by simp) (by rw [l1.pc, hseg.pc]; simp))
       rw [hv1]
-      cases h2 : Ref.evalList n es' env rs1 with
+      cases h2 : Ref.evalArgs n es' (i + 1) lazyAt env rs1 with
       | ok vs' rs2 => rw [h2] at ih2; exact simFL_cons rfl r1 l1 hm1 ext1 fr1 hcl1 ih2
       | err rs2 => rw [h2] at ih2; exact (FailsX.of_reach r1 ih2)
       | timeout => trivial
@@ -553,24 +640,46 @@ theorem not_anon_of_okHead {h : String} (hh : okHead h = true) (t : Nat) : h ≠
 the scopes of the activation dropped, the function re-entered at instruction 0 — the rest of the
 activation is the application of the same closure (`FClaimU`), whose return is the return of this
 activation; if the guard fails, the ordinary call behind the jump runs. -/
-theorem simT_selfcall {k : Nat} (hV : TClaimV (k + 1)) (hA : FClaimA (k + 1)) (hU : FClaimU (k + 1))
+theorem isLazyCallArg_congr {f g : FnObj} (hp : f.params = g.params) (hn : f.nargs = g.nargs) (hv : f.varargs = g.varargs)
+    (j : Nat) : f.isLazyCallArg j = g.isLazyCallArg j := by
+  unfold FnObj.isLazyCallArg; rw [hp, hn, hv]
+
+/-- for a closure object, `PrepareCallExprArgs` and the generator delay the same positions -/
+theorem isLazyVM_eq {fo : FnObj} (hu : fo.user = false) (j : Nat) : isLazyVM (some fo) j = fo.isLazyCallArg j := by
+  unfold isLazyVM
+  simp only [hu, Bool.not_false, Bool.true_and]
+  by_cases hj : fo.isLazyCallArg j = true
+  · rw [hj, Bool.and_true]
+    unfold FnObj.isLazyCallArg at hj
+    unfold FnObj.hasLazyFormals
+    split at hj
+    · cases hj
+    · cases hp : fo.params[j]? with
+      | none => rw [hp] at hj; cases hj
+      | some p =>
+        rw [hp] at hj
+        exact List.any_eq_true.mpr ⟨p, List.mem_of_getElem? hp, hj⟩
+  · have : fo.isLazyCallArg j = false := by simpa using hj
+    rw [this, Bool.and_false]
+
+theorem simT_selfcall {k : Nat} (hV : TClaimV (k + 1)) (hA : FClaimA (k + 1)) (hU : FClaimU (k + 1)) (hG : ∀ name, hoB name → FClaimH k name)
     {self h : String} {args : List Expr} (hh : (h != "") = true) (hhead : okHead h = true) (hfa : FaList args = true)
     (hself : (h != self) = true ∨ FfList false self args = true)
     (isFn : Nat → Bool) (c : Ctx) (gs : GS) (r : (List Instr × Bool) × GS)
     (hc : (compile isFn c (.call (.sym h) args)).run gs = .ok r) (hfn : FnameOk self c)
     {ps : List String} {rest : Option String} (hkn : KnownOk c gs ps rest) (hps : ∀ p ∈ ps ++ rest.toList, okParam p = true)
-    {m₁ : Nat → Nat} {s₁ : St} {rs₁ : Ref.St} {env vid : Nat} {D : List (Option Val)} {m : Nat → Nat} {s : St} {rs : Ref.St}
+    {m₁ : Nat → Nat} {s₁ : St} {rs₁ : Ref.St} {env vid : Nat} {D : List (Option Val)} {f₀ : Nat} {m : Nat → Nat} {s : St} {rs : Ref.St}
     {cenv : Nat} {pre post : List Instr}
-    (hact : InAct m₁ s₁ rs₁ env vid D c.scopes m s rs) (hnargs : (fnOf s₁ vid).nargs = ps.length)
-    (hva : (fnOf s₁ vid).varargs = rest.isSome)
+    (hact : InAct m₁ s₁ rs₁ env vid D f₀ c.scopes m s rs) (hnargs : (fnOf s₁ vid).nargs = ps.length)
+    (hva : (fnOf s₁ vid).varargs = rest.isSome) (hpa : (fnOf s₁ vid).params = ps ++ rest.toList)
     (hrel : RelF m s rs cenv) (hseg : Seg s pre r.1.1 post) :
-    SimT r.1.1 s₁ env D m s rs cenv (Ref.eval (k + 2) (.call (.sym h) args) cenv rs) := by
+    SimT r.1.1 s₁ env D f₀ m s rs cenv (Ref.eval (k + 2) (.call (.sym h) args) cenv rs) := by
   have hok : okSym h = true := okSym_of_okHead hhead
   rw [compile_call_eq] at hc
   by_cases hcond' : ¬ ((c.tail && h == c.funcname) = true ∧ arityOk (knownFn c gs h) args.length = true)
   · rw [if_neg hcond'] at hc
     injection hc with hc; subst hc
-    exact (simF_call hA hU hok hfa hrel hseg).toT
+    exact (simF_call hA hU hG hok hfa hrel hseg).toT
   have hcond := Classical.not_not.mp hcond'
   rw [if_pos hcond] at hc
   -- the name is the running function's
@@ -612,8 +721,6 @@ theorem simT_selfcall {k : Nat} (hV : TClaimV (k + 1)) (hA : FClaimA (k + 1)) (h
   simp only at hc
   injection hc with hc; subst hc
   simp only at hseg ⊢
-  have hlz : ∀ fo, some (gs.fns.getD t {}) = some fo → ∀ j, fo.isLazyCallArg j = false := fun fo hfo j => by
-    injection hfo with hfo; subst hfo; exact notLazy_of_params hpar hps j
   -- the closure object that is running
   have hmain1 : mainFn < s₁.fns.length := Nat.lt_trans hact.good.nm hact.good.lt
   have hgs : GoodFn m s rs vid :=
@@ -623,6 +730,10 @@ theorem simT_selfcall {k : Nat} (hV : TClaimV (k + 1)) (hA : FClaimA (k + 1)) (h
   have hfo_s : fnOf s vid = fnOf s₁ vid := hact.fns vid hact.good.lt
   have hn0 : c0.ps.length = ps.length := by rw [← hnargs0, hfo_s, hnargs]
   have hv0 : c0.rest.isSome = rest.isSome := by rw [← hvar0, hfo_s, hva]
+  have hlz : ∀ j, isLazyGen (some (gs.fns.getD t {})) j = lazyAtC c0 j := fun j => by
+    show (gs.fns.getD t {}).isLazyCallArg j = _
+    rw [← isLazyVM_clo huser0 hparams hnargs0 hvar0 j, isLazyVM_eq huser0 j]
+    exact isLazyCallArg_congr (by rw [hpar, hfo_s, hpa]) (by rw [hna, hfo_s, hnargs]) (by rw [hvar, hfo_s, hva]) j
   have hin := hseg.inFn
   have hlen : (tailCode h c.scopes args code).length = code.length + c.scopes + 5 := by
     simp [tailCode]; omega
@@ -640,15 +751,15 @@ theorem simT_selfcall {k : Nat} (hV : TClaimV (k + 1)) (hA : FClaimA (k + 1)) (h
     rw [hl] at hlook'
     rw [← hlook']
     simp only [Option.map_some, trp2]
-    show SimT _ s₁ env D m s rs cenv (refCall k (.fn (m s.curfunc)) args cenv rs)
-    rw [hact.cur, refCall_fn k (m vid) args cenv rs c0 hc1 hokp, ← ref_evalList_eq_evalArgs]
+    show SimT _ s₁ env D f₀ m s rs cenv (refCall k (.fn (m s.curfunc)) args cenv rs)
+    rw [hact.cur, refCall_fn k (m vid) args cenv rs c0 hc1]
     -- the operands
     have hseg1 : Seg (s.jmp (s.pc + 1) s.data) (pre ++ [.tailGuard h (code.length + c.scopes + 4)]) code
         ([.prepareCall h args.length] ++ List.replicate (c.scopes + 1) Instr.removeScope
           ++ [.goto 0, .callExpr (.sym h) args] ++ post) :=
       (hin.of_fn (σ' := s.jmp (s.pc + 1) s.data) rfl).seg (by simp [tailCode]) (by rw [St.jmp_pc, hseg.pc]; simp)
-    have ihV := hV self args hargs isFn _ _ 0 gs (code, g1) hcc hfn' hlz m _ rs cenv _ _ (hrel.jmp _ _) hseg1
-    cases h1 : Ref.evalList (k + 1) args cenv rs with
+    have ihV := hV self args hargs hfa isFn _ _ 0 gs (code, g1) hcc hfn' (lazyAtC c0) hlz m _ rs cenv _ _ (hrel.jmp _ _) hseg1
+    cases h1 : Ref.evalArgs (k + 1) args 0 (lazyAtC c0) cenv rs with
     | ok vs' rs2 =>
       rw [h1] at ihV
       obtain ⟨s2, m2, vs, r2, hfn2, hpc2, hd2, hvs2, rel2, hm2, ext2, fr2, hcl2⟩ := ihV
@@ -662,7 +773,7 @@ theorem simT_selfcall {k : Nat} (hV : TClaimV (k + 1)) (hA : FClaimA (k + 1)) (h
         (hfr02.fns id (Nat.lt_of_lt_of_le hid hact.fnsLen)).trans (hact.fns id hid)
       have hfl2 : s₁.fns.length ≤ s2.fns.length := Nat.le_trans hact.fnsLen hfr02.fnsLen
       have hlen12 : vs.length = args.length := by
-        have h3 := ref_evalList_length _ _ _ _ _ _ h1
+        have h3 := ref_evalArgs_length' _ _ _ _ _ _ _ _ h1
         rw [hvs2, List.length_map] at h3
         exact h3
       have har0 : arOk c0.rest c0.ps.length vs.length := by
@@ -731,10 +842,10 @@ theorem simT_selfcall {k : Nat} (hV : TClaimV (k + 1)) (hA : FClaimA (k + 1)) (h
       have hfo1' : ∀ id, fnOf s₁' id = fnOf s2 id := fun id => by subst hs1'; unfold fnOf; rw [hfns5]
       have hflags1' : ∀ i, isFnScope s₁' i = isFnScope s2 i := fun i => by
         subst hs1'; unfold isFnScope scopeOf; rw [hsc5]
-      have rel1' : RelF m2 s₁' rs2 env :=
-        hact.rel₁.back (s₅ := s₁') rel2 (by subst hs1'; exact hsc5) (by subst hs1'; exact hfns5) (by subst hs1'; exact hheap5)
+      have rel1' : RelF m2 (s₁'.withCur f₀) rs2 env :=
+        hact.rel₁.back (s₅ := s₁'.withCur f₀) rel2 (by subst hs1'; exact hsc5) (by subst hs1'; exact hfns5) (by subst hs1'; exact hheap5)
           (by subst hs1'; exact htr5) (by subst hs1'; exact hlin5) (by subst hs1'; rfl) hflags2 hfl2 hfo2 hext12.1 hle12
-          (by subst hs1'; exact hloops5)
+          (by subst hs1'; exact hloops5) (by subst hs1'; subst hs5; subst hs4; rfl)
       have hk1' : FnsKeep s₁ s₁' := FnsKeep.of_eq (by subst hs1'; rw [hfns5]; exact hfl2)
         (fun id hid => (hfo1' id).trans (hfo2 id hid)) hmain1 (by subst hs1'; unfold LoopsExt; rw [hloops5]; exact hle12)
       have good1' : GoodFn m2 s₁' rs2 vid :=
@@ -743,7 +854,7 @@ theorem simT_selfcall {k : Nat} (hV : TClaimV (k + 1)) (hA : FClaimA (k + 1)) (h
         ValIn.mono (hcl2 v hv) (fun id hgd => hgd.mono (FnsKeep.of_fns_eq (by subst hs1'; exact hfns5)
             (LoopsExt.of_eq (by subst hs1'; exact hloops5)))
           (by subst hs1'; rw [hsc5]; exact Nat.le_refl _) (fun i _ => hflags1' i) (RExt.refl _) rfl)
-      have hres := hU m2 s₁' rs2 env vid c0 vs D rel1' good1'
+      have hres := hU m2 s₁' rs2 env vid c0 vs D f₀ rel1' good1'
         (by rw [hm12, ← hact.mext vid hact.good.lt]; exact ext2.2 _ _ hc1) (by subst hs1'; rfl) hvok har0
       rw [hent, hm12, ← hact.mext vid hact.good.lt, ← hvs2] at hres
       have hreach5 : ReachX s s5 := (((r0.trans r2).trans r3).trans r4').trans r5
@@ -782,7 +893,7 @@ theorem simT_selfcall {k : Nat} (hV : TClaimV (k + 1)) (hA : FClaimA (k + 1)) (h
           ++ List.replicate (c.scopes + 1) Instr.removeScope ++ [.goto 0])) [.callExpr (.sym h) args] post :=
       (hin.of_fn (σ' := s.jmp (s.pc + ((code.length + c.scopes + 4 : Nat) : Int)) s.data) rfl).seg (by simp [tailCode])
         (by rw [St.jmp_pc, hseg.pc]; simp; omega)
-    have hcall := simF_call hA hU hok hfa (hrel.jmp _ _) hseg'
+    have hcall := simF_call hA hU hG hok hfa (hrel.jmp _ _) hseg'
     exact (SimF.seq r0 mv (MExt.refl _ _) (RExt.refl _) (FrameF.jmp _ _ _) hcall (by rw [hlen]; simp)).toT
 
 /-! ## The claims for tail positions -/
@@ -796,13 +907,33 @@ theorem simF_of_simX_nil {code : List Instr} {m : Nat → Nat} {s : St} {rs : Re
   | brk l rs' => obtain ⟨γ, hγ, _⟩ := h; cases l <;> simp [findCtx] at hγ
   | cont l rs' => obtain ⟨γ, hγ, _⟩ := h; cases l <;> simp [findCtx] at hγ
 
-/-- a statement that is not in tail position: a form of F2, or (`ex`) one whose loops `break`/`continue` -/
+/-- a `defn` whose body is in `FzList` (at top level, or nested in a function body) -/
+theorem simF_defnZ {n : Nat} {ex : Bool} {name : String} {ps : List String} {rest : Option String} {body : List Expr}
+    (hrest : okRest rest = true) (hname : okName name = true) (hne : name ≠ "") (hnd : (ps ++ rest.toList).Nodup)
+    (hps : ∀ p ∈ ps, okParam p = true) (hbody : body ≠ []) (hfz : FzList ex name body = true)
+    (isFn : Nat → Bool) (c : Ctx) (gs : GS) (hex : ex = true → gs.loopstack = [])
+    (r : (List Instr × Bool) × GS) (hc : (compile isFn c (.defn name ps rest body)).run gs = .ok r)
+    (m : Nat → Nat) (s : St) (rs : Ref.St) (env : Nat) (pre post : List Instr)
+    (hrel : RelF m s rs env) (hgen : GenOk gs r.2 s) (hseg : Seg s pre r.1.1 post) :
+    SimF r.1.1 m s rs env (Ref.eval n (.defn name ps rest body) env rs) := by
+  cases n with
+  | zero => rw [Ref.eval]; trivial
+  | succ k =>
+    obtain ⟨b, tl, g2, hb, _, hk2⟩ := compileBegin_total_Fz ex name body hbody hfz isFn (bodyCtx c gs name ps rest body)
+      (gsAlloc isFn gs name ps rest) (bodyCtx_funcname c gs name ps rest body) hex
+    exact simF_defn_core name ps rest body hrest hname hne hnd hps hbody hfz hex isFn c g2 b tl hb hk2.1 r hc hrel hgen hseg
+
+/-- a statement that is not in tail position: a form of F2, or (`ex`) one whose loops `break`/`continue`, or a nested
+`defn` with self tail calls / loops with exits in its body -/
 theorem simF_stmt {n : Nat} (hFE : FClaimE n) (hXE : XClaimE n) {ex : Bool} {self : String} {e : Expr}
-    (he : (if ex then Fx [] self e else Ff true self e) = true) (isFn : Nat → Bool) (c : Ctx) (gs : GS)
+    (he : Fs ex self e = true) (isFn : Nat → Bool) (c : Ctx) (gs : GS)
     (r : (List Instr × Bool) × GS) (hc : (compile isFn c e).run gs = .ok r) (hfn : FnameOk self c)
     (hex : ex = true → gs.loopstack = []) (m : Nat → Nat) (s : St) (rs : Ref.St) (env : Nat) (pre post : List Instr)
     (hrel : RelF m s rs env) (hgen : GenOk gs r.2 s) (hlo : LsOut pre gs.loops.length r.2.loops.length)
     (hseg : Seg s pre r.1.1 post) : SimF r.1.1 m s rs env (Ref.eval n e env rs) := by
+  rcases fs_cases he with he | ⟨name, ps, rest, body, rfl, hrest, hname, hne, hnd, hps, hbody, hfz⟩
+  rotate_left
+  · exact simF_defnZ hrest hname hne hnd hps hbody hfz isFn c gs hex r hc m s rs env pre post hrel hgen hseg
   cases ex with
   | false => exact hFE true self e (by simpa using he) isFn c gs r hc hfn m s rs env pre post hrel (fun _ => hgen) hseg
   | true =>
@@ -812,47 +943,47 @@ theorem simF_stmt {n : Nat} (hFE : FClaimE n) (hXE : XClaimE n) {ex : Bool} {sel
 def TClaimE (n : Nat) : Prop :=
   ∀ ex self e, Fz ex self e = true → ∀ isFn c gs r, (compile isFn c e).run gs = .ok r → FnameOk self c →
   (ex = true → gs.loopstack = []) → ∀ ps rest, KnownOk c gs ps rest → (∀ p ∈ ps ++ rest.toList, okParam p = true) →
-  ∀ m₁ s₁ rs₁ env vid D m s rs cenv pre post, InAct m₁ s₁ rs₁ env vid D c.scopes m s rs → (fnOf s₁ vid).nargs = ps.length →
-    (fnOf s₁ vid).varargs = rest.isSome →
+  ∀ m₁ s₁ rs₁ env vid D f₀ m s rs cenv pre post, InAct m₁ s₁ rs₁ env vid D f₀ c.scopes m s rs → (fnOf s₁ vid).nargs = ps.length →
+    ((fnOf s₁ vid).varargs = rest.isSome ∧ (fnOf s₁ vid).params = ps ++ rest.toList) →
     RelF m s rs cenv → GenOk gs r.2 s → LsOut pre gs.loops.length r.2.loops.length → Seg s pre r.1.1 post →
-    SimT r.1.1 s₁ env D m s rs cenv (Ref.eval n e cenv rs)
+    SimT r.1.1 s₁ env D f₀ m s rs cenv (Ref.eval n e cenv rs)
 
 def TClaimB (n : Nat) : Prop :=
   ∀ ex self es, es ≠ [] → FzList ex self es = true → ∀ isFn c gs r, (compileBegin isFn c es).run gs = .ok r → FnameOk self c →
   (ex = true → gs.loopstack = []) → ∀ ps rest, KnownOk c gs ps rest → (∀ p ∈ ps ++ rest.toList, okParam p = true) →
-  ∀ m₁ s₁ rs₁ env vid D m s rs cenv pre post, InAct m₁ s₁ rs₁ env vid D c.scopes m s rs → (fnOf s₁ vid).nargs = ps.length →
-    (fnOf s₁ vid).varargs = rest.isSome →
+  ∀ m₁ s₁ rs₁ env vid D f₀ m s rs cenv pre post, InAct m₁ s₁ rs₁ env vid D f₀ c.scopes m s rs → (fnOf s₁ vid).nargs = ps.length →
+    ((fnOf s₁ vid).varargs = rest.isSome ∧ (fnOf s₁ vid).params = ps ++ rest.toList) →
     RelF m s rs cenv → GenOk gs r.2 s → LsOut pre gs.loops.length r.2.loops.length → Seg s pre r.1.1 post →
-    SimT r.1.1 s₁ env D m s rs cenv (Ref.evalBegin n es cenv rs)
+    SimT r.1.1 s₁ env D f₀ m s rs cenv (Ref.evalBegin n es cenv rs)
 
 def TClaimN (n : Nat) : Prop :=
   ∀ ex self es, es ≠ [] → FzList ex self es = true → ∀ isFn c oldtail gs r, (compileNewScope isFn c oldtail es).run gs = .ok r →
   FnameOk self c → (ex = true → gs.loopstack = []) → ∀ ps rest, KnownOk c gs ps rest → (∀ p ∈ ps ++ rest.toList, okParam p = true) →
-  ∀ m₁ s₁ rs₁ env vid D m s rs cenv pre post, InAct m₁ s₁ rs₁ env vid D c.scopes m s rs → (fnOf s₁ vid).nargs = ps.length →
-    (fnOf s₁ vid).varargs = rest.isSome →
+  ∀ m₁ s₁ rs₁ env vid D f₀ m s rs cenv pre post, InAct m₁ s₁ rs₁ env vid D f₀ c.scopes m s rs → (fnOf s₁ vid).nargs = ps.length →
+    ((fnOf s₁ vid).varargs = rest.isSome ∧ (fnOf s₁ vid).params = ps ++ rest.toList) →
     RelF m s rs cenv → GenOk gs r.2 s → LsOut pre gs.loops.length r.2.loops.length → Seg s pre r.1.1 post →
-    SimT r.1.1 s₁ env D m s rs cenv (Ref.evalBegin n es cenv rs)
+    SimT r.1.1 s₁ env D f₀ m s rs cenv (Ref.evalBegin n es cenv rs)
 
 def TClaimC (n : Nat) : Prop :=
   ∀ ex self arms d, FzArms ex self arms = true → Fz ex self d = true → ∀ isFn c gs r gs0 rd,
     (compileArms isFn c arms).run gs = .ok r → (compile isFn c d).run gs0 = .ok rd → FnameOk self c →
   (ex = true → gs.loopstack = []) → (ex = true → gs0.loopstack = []) →
   ∀ ps rest, KnownOk c gs ps rest → KnownOk c gs0 ps rest → (∀ p ∈ ps ++ rest.toList, okParam p = true) →
-  ∀ m₁ s₁ rs₁ env vid D m s rs cenv pre post, InAct m₁ s₁ rs₁ env vid D c.scopes m s rs → (fnOf s₁ vid).nargs = ps.length →
-    (fnOf s₁ vid).varargs = rest.isSome →
+  ∀ m₁ s₁ rs₁ env vid D f₀ m s rs cenv pre post, InAct m₁ s₁ rs₁ env vid D f₀ c.scopes m s rs → (fnOf s₁ vid).nargs = ps.length →
+    ((fnOf s₁ vid).varargs = rest.isSome ∧ (fnOf s₁ vid).params = ps ++ rest.toList) →
     RelF m s rs cenv → GenOk gs r.2 s → GenOk gs0 rd.2 s →
     LsOut pre gs.loops.length r.2.loops.length → LsOut pre gs0.loops.length rd.2.loops.length →
     rd.2.loops.length ≤ gs.loops.length → Seg s pre (asmCond r.1 rd.1.1) post →
-    SimT (asmCond r.1 rd.1.1) s₁ env D m s rs cenv (Ref.evalCond n arms d cenv rs)
+    SimT (asmCond r.1 rd.1.1) s₁ env D f₀ m s rs cenv (Ref.evalCond n arms d cenv rs)
 
 theorem tclaimB_succ {n : Nat} (hFE : FClaimE n) (hXE : XClaimE n) (hE : TClaimE n) (hB : TClaimB n) : TClaimB (n + 1) := by
-  intro ex self es hne hes isFn c gs r hc hfn hex ps rest hkn hps m₁ s₁ rs₁ env vid D m s rs cenv pre post hact hna hva hrel hgen hlo hseg
+  intro ex self es hne hes isFn c gs r hc hfn hex ps rest hkn hps m₁ s₁ rs₁ env vid D f₀ m s rs cenv pre post hact hna hva hrel hgen hlo hseg
   match es, hne with
   | [e], _ =>
     rw [FzList] at hes
     rw [compileBegin] at hc
     rw [Ref.evalBegin]
-    exact hE ex self e hes isFn c gs r hc hfn hex ps rest hkn hps m₁ s₁ rs₁ env vid D m s rs cenv pre post hact hna hva hrel hgen hlo hseg
+    exact hE ex self e hes isFn c gs r hc hfn hex ps rest hkn hps m₁ s₁ rs₁ env vid D f₀ m s rs cenv pre post hact hna hva hrel hgen hlo hseg
   | e :: e' :: es', _ =>
     rw [FzList] at hes
     simp only [Bool.and_eq_true] at hes
@@ -875,7 +1006,7 @@ theorem tclaimB_succ {n : Nat} (hFE : FClaimE n) (hXE : XClaimE n) (hE : TClaimE
           obtain ⟨r2, m2⟩ := glue_pop hseg l1
           have hfr := fr1.trans (FrameF.jmp s1 (s1.pc + 1) s.data)
           have ih2 := hB ex self (e' :: es') (by simp) hes.2 isFn c gs1 (rb, gs2) hb hfn hex1 ps rest (hkn.keep tot1.1 rfl rfl) hps
-            m₁ s₁ rs₁ env vid D m1 (s1.jmp (s1.pc + 1) s.data) rs1 cenv _ post (hact.moved m2 hfr hm1 ext1) hna hva (rel1.jmp _ _)
+            m₁ s₁ rs₁ env vid D f₀ m1 (s1.jmp (s1.pc + 1) s.data) rs1 cenv _ post (hact.moved m2 hfr hm1 ext1) hna hva (rel1.jmp _ _)
             ((hgen.rest tot1.1).frame hfr.toFrame)
             ((hlo.mono tot1.2.1 (Nat.le_refl _)).app ((tot1.2.2.below (Nat.le_refl _)).app (lsOut_pop _ _)))
             (hseg.moved m2 (c₁ := ra.1 ++ [.pop]) (c₂ := rb.1) (post' := post) rfl (by simp))
@@ -888,14 +1019,14 @@ theorem tclaimB_succ {n : Nat} (hFE : FClaimE n) (hXE : XClaimE n) (hE : TClaimE
     · intro hh; cases hh
 
 theorem tclaimN_succ {n : Nat} (hFE : FClaimE n) (hXE : XClaimE n) (hE : TClaimE n) (hN : TClaimN n) : TClaimN (n + 1) := by
-  intro ex self es hne hes isFn c oldtail gs r hc hfn hex ps rest hkn hps m₁ s₁ rs₁ env vid D m s rs cenv pre post hact hna hva hrel hgen
+  intro ex self es hne hes isFn c oldtail gs r hc hfn hex ps rest hkn hps m₁ s₁ rs₁ env vid D f₀ m s rs cenv pre post hact hna hva hrel hgen
     hlo hseg
   match es, hne with
   | [e], _ =>
     rw [FzList] at hes
     rw [compileNewScope] at hc
     rw [Ref.evalBegin]
-    exact hE ex self e hes isFn _ gs r hc hfn hex ps rest (hkn.keep (KeepFns.refl _) rfl rfl) hps m₁ s₁ rs₁ env vid D m s rs cenv
+    exact hE ex self e hes isFn _ gs r hc hfn hex ps rest (hkn.keep (KeepFns.refl _) rfl rfl) hps m₁ s₁ rs₁ env vid D f₀ m s rs cenv
       pre post hact hna hva hrel hgen hlo hseg
   | e :: e' :: es', _ =>
     rw [FzList] at hes
@@ -918,7 +1049,7 @@ theorem tclaimN_succ {n : Nat} (hFE : FClaimE n) (hXE : XClaimE n) (hE : TClaimE
           obtain ⟨r2, m2⟩ := glue_pop hseg l1
           have hfr := fr1.trans (FrameF.jmp s1 (s1.pc + 1) s.data)
           have ih2 := hN ex self (e' :: es') (by simp) hes.2 isFn c oldtail gs1 (rb, gs2) hb hfn hex1 ps rest (hkn.keep tot1.1 rfl rfl)
-            hps m₁ s₁ rs₁ env vid D m1 (s1.jmp (s1.pc + 1) s.data) rs1 cenv _ post (hact.moved m2 hfr hm1 ext1) hna hva
+            hps m₁ s₁ rs₁ env vid D f₀ m1 (s1.jmp (s1.pc + 1) s.data) rs1 cenv _ post (hact.moved m2 hfr hm1 ext1) hna hva
             (rel1.jmp _ _) ((hgen.rest tot1.1).frame hfr.toFrame)
             ((hlo.mono tot1.2.1 (Nat.le_refl _)).app ((tot1.2.2.below (Nat.le_refl _)).app (lsOut_pop _ _)))
             (hseg.moved m2 (c₁ := ra.1 ++ [.pop]) (c₂ := rb.1) (post' := post) rfl (by simp))
@@ -931,14 +1062,14 @@ theorem tclaimN_succ {n : Nat} (hFE : FClaimE n) (hXE : XClaimE n) (hE : TClaimE
     · intro hh; cases hh
 
 theorem tclaimC_succ {n : Nat} (hFE : FClaimE n) (hE : TClaimE n) (hC : TClaimC n) : TClaimC (n + 1) := by
-  intro ex self arms d harms hd isFn c gs r gs0 rd hc hcd hfn hex hex0 ps rest hkn hkn0 hps m₁ s₁ rs₁ env vid D m s rs cenv pre post
+  intro ex self arms d harms hd isFn c gs r gs0 rd hc hcd hfn hex hex0 ps rest hkn hkn0 hps m₁ s₁ rs₁ env vid D f₀ m s rs cenv pre post
     hact hna hva hrel hgen hgend hlo hlod hdl hseg
   match arms with
   | [] =>
     rw [compileArms] at hc; simp only [g_pure_ok] at hc; subst hc
     rw [Ref.evalCond]
     simp only [asmCond] at hseg ⊢
-    exact hE ex self d hd isFn c gs0 rd hcd hfn hex0 ps rest hkn0 hps m₁ s₁ rs₁ env vid D m s rs cenv pre post hact hna hva hrel hgend
+    exact hE ex self d hd isFn c gs0 rd hcd hfn hex0 ps rest hkn0 hps m₁ s₁ rs₁ env vid D f₀ m s rs cenv pre post hact hna hva hrel hgend
       hlod hseg
   | (p, b) :: arms' =>
     rw [FzArms] at harms
@@ -971,7 +1102,7 @@ theorem tclaimC_succ {n : Nat} (hFE : FClaimE n) (hE : TClaimE n) (hC : TClaimC 
         obtain ⟨r2, m2⟩ := glue_brn_fall hseg l1 ht
         have hfr := fr1.trans (FrameF.jmp s1 (s1.pc + 1) s.data)
         have ih2 := hE ex self b harms.1.2 isFn c gs2 (rb, gs3) hb hfn hex2 ps rest (hkn.keep (totr.1.trans totp.1) rfl rfl) hps
-          m₁ s₁ rs₁ env vid D m1 (s1.jmp (s1.pc + 1) s.data) rs1 cenv _ _ (hact.moved m2 hfr hm1 ext1) hna hva (rel1.jmp _ _)
+          m₁ s₁ rs₁ env vid D f₀ m1 (s1.jmp (s1.pc + 1) s.data) rs1 cenv _ _ (hact.moved m2 hfr hm1 ext1) hna hva (rel1.jmp _ _)
           ((hgen.rest (totr.1.trans totp.1)).frame hfr.toFrame)
           ((hlo.mono (Nat.le_trans l01 l12) (Nat.le_refl _)).app
             ((totp.2.2.below (Nat.le_refl _)).app (lsOut_one (.branch false (rb.1.length + 2)) _ _)))
@@ -984,7 +1115,7 @@ theorem tclaimC_succ {n : Nat} (hFE : FClaimE n) (hE : TClaimE n) (hC : TClaimC 
         have hfr := fr1.trans (FrameF.jmp s1 (s1.pc + ((rb.1.length : Int) + 2)) s.data)
         have hk13 := totp.1.trans totb.1
         have ih2 := hC ex self arms' d harms.2 hd isFn c gs (restA, gs1) gs0 rd hrest hcd hfn hex hex0 ps rest hkn hkn0 hps
-          m₁ s₁ rs₁ env vid D m1 (s1.jmp (s1.pc + ((rb.1.length : Int) + 2)) s.data) rs1 cenv _ post
+          m₁ s₁ rs₁ env vid D f₀ m1 (s1.jmp (s1.pc + ((rb.1.length : Int) + 2)) s.data) rs1 cenv _ post
           (hact.moved m2 hfr hm1 ext1) hna hva (rel1.jmp _ _)
           ((hgen.first hk13).frame hfr.toFrame) (hgend.frame hfr.toFrame)
           ((hlo.mono (Nat.le_refl _) (Nat.le_trans l12 l23)).app
@@ -1005,10 +1136,10 @@ theorem tclaimC_succ {n : Nat} (hFE : FClaimE n) (hE : TClaimE n) (hC : TClaimC 
     | cont l rs1 => rw [h1] at ih; exact ih.elim
 
 theorem tclaimE_succ {n : Nat} (hFE1 : FClaimE (n + 1)) (hXE1 : XClaimE (n + 1)) (hV : TClaimV n) (hA : FClaimA n)
-    (hU : FClaimU n) (hL : FClaimL n) (hP : FClaimP n) (hB : TClaimB n) (hC : TClaimC n) (hN : TClaimN n) :
-    TClaimE (n + 1) := by
-  intro ex self e he isFn c gs r hc hfn hex ps rest hkn hps m₁ s₁ rs₁ env vid D m s rs cenv pre post hact hna hva hrel hgen hlo hseg
-  have hff : Ff true self e = true → SimT r.1.1 s₁ env D m s rs cenv (Ref.eval (n + 1) e cenv rs) := fun h =>
+    (hU : FClaimU n) (hG : ∀ k, n = k + 1 → ∀ name, hoB name → FClaimH k name) (hL : FClaimL n) (hP : FClaimP n) (hB : TClaimB n) (hC : TClaimC n)
+    (hN : TClaimN n) : TClaimE (n + 1) := by
+  intro ex self e he isFn c gs r hc hfn hex ps rest hkn hps m₁ s₁ rs₁ env vid D f₀ m s rs cenv pre post hact hna hva hrel hgen hlo hseg
+  have hff : Ff true self e = true → SimT r.1.1 s₁ env D f₀ m s rs cenv (Ref.eval (n + 1) e cenv rs) := fun h =>
     (hFE1 true self e h isFn c gs r hc hfn m s rs cenv pre post hrel (fun _ => hgen) hseg).toT
   cases e with
   | call f args =>
@@ -1019,7 +1150,7 @@ theorem tclaimE_succ {n : Nat} (hFE1 : FClaimE (n + 1)) (hXE1 : XClaimE (n + 1))
       cases n with
       | zero => rw [Ref.eval, Ref.eval]; trivial
       | succ k =>
-        exact simT_selfcall hV hA hU he.1.1.1 he.1.1.2 he.1.2 he.2 isFn c gs r hc hfn hkn hps hact hna hva hrel hseg
+        exact simT_selfcall hV hA hU (hG k rfl) he.1.1.1 he.1.1.2 he.1.2 he.2 isFn c gs r hc hfn hkn hps hact hna hva.1 hva.2 hrel hseg
     | _ => simp [Fz] at he
   | begin_ es =>
     rw [Fz] at he
@@ -1028,7 +1159,7 @@ theorem tclaimE_succ {n : Nat} (hFE1 : FClaimE (n + 1)) (hXE1 : XClaimE (n + 1))
     | cons e0 es0 =>
       rw [compile] at hc
       · rw [Ref.eval]
-        exact hB ex self (e0 :: es0) (by simp) he isFn c gs r hc hfn hex ps rest hkn hps m₁ s₁ rs₁ env vid D m s rs cenv pre post
+        exact hB ex self (e0 :: es0) (by simp) he isFn c gs r hc hfn hex ps rest hkn hps m₁ s₁ rs₁ env vid D f₀ m s rs cenv pre post
           hact hna hva hrel hgen hlo hseg
       · intro hh; cases hh
   | cond arms d =>
@@ -1042,7 +1173,7 @@ theorem tclaimE_succ {n : Nat} (hFE1 : FClaimE (n + 1)) (hXE1 : XClaimE (n + 1))
     have tota := compileArms_tot_Fz he.1 hfn hex1 has
     rw [Ref.eval]
     exact hC ex self arms d he.1 he.2 isFn c gs1 (as, gs2) gs (rd, gs1) has hd hfn hex1 hex ps rest (hkn.keep totd.1 rfl rfl) hkn hps
-      m₁ s₁ rs₁ env vid D m s rs cenv pre post hact hna hva hrel (hgen.rest totd.1) (hgen.first tota.1)
+      m₁ s₁ rs₁ env vid D f₀ m s rs cenv pre post hact hna hva hrel (hgen.rest totd.1) (hgen.first tota.1)
       (hlo.mono totd.2.1 (Nat.le_refl _)) (hlo.mono (Nat.le_refl _) tota.2.1) (Nat.le_refl _) hseg
   | newScope es =>
     rw [Fz] at he
@@ -1054,9 +1185,9 @@ theorem tclaimE_succ {n : Nat} (hFE1 : FClaimE (n + 1)) (hXE1 : XClaimE (n + 1))
       · simp only [g_bind_ok, g_pure_ok] at hc
         obtain ⟨ra, gs1, ha, rfl⟩ := hc
         rw [Ref.eval]
-        show SimT _ s₁ env D m s rs cenv (Ref.evalBegin n (e0 :: es0) rs.frames.length (Ref.newFrame rs cenv).2)
+        show SimT _ s₁ env D f₀ m s rs cenv (Ref.evalBegin n (e0 :: es0) rs.frames.length (Ref.newFrame rs cenv).2)
         exact SimT.scoped hseg hrel (hN ex self (e0 :: es0) he.1 he.2 isFn _ _ gs (ra, gs1) ha hfn hex ps rest
-          (hkn.keep (KeepFns.refl _) rfl rfl) hps m₁ s₁ rs₁ env vid D m _ _ _ _ _ (hact.pushScope cenv) hna hva
+          (hkn.keep (KeepFns.refl _) rfl rfl) hps m₁ s₁ rs₁ env vid D f₀ m _ _ _ _ _ (hact.pushScope cenv) hna hva
           hrel.pushScope (hgen.mono (FnsKeep.of_fns_eq rfl)) (hlo.app (lsOut_one .addScope _ _)) hseg.inner)
       · intro hh; cases hh
   | let_ seq bs body =>
@@ -1081,7 +1212,7 @@ theorem tclaimE_succ {n : Nat} (hFE1 : FClaimE (n + 1)) (hXE1 : XClaimE (n + 1))
         simp
       simp only [Bool.false_eq_true, hcode] at hseg hgen hlo ⊢
       rw [Ref.eval]
-      show SimT _ s₁ env D m s rs cenv (if false = true then _ else
+      show SimT _ s₁ env D f₀ m s rs cenv (if false = true then _ else
           (match Ref.evalList n (bs.map (·.2)) rs.frames.length (Ref.newFrame rs cenv).2 with
            | .ok vs s => (match Ref.bindAll s rs.frames.length (bs.map (·.1)) vs with
               | some s => Ref.evalBegin n body rs.frames.length s
@@ -1104,7 +1235,7 @@ theorem tclaimE_succ {n : Nat} (hFE1 : FClaimE (n + 1)) (hXE1 : XClaimE (n + 1))
           obtain ⟨s2, m2, r2, mv2, rel2, hm2, ext2, fr2⟩ := hUb
           simp only
           have ihb := hB ex self body hbody hbl isFn _ gs1 (rb, gs2) hb hfn'' hex1 ps rest (hkn.keep hk1.1 rfl rfl) hps
-            m₁ s₁ rs₁ env vid D m2 s2 rs3 _ _ _ ((hact.pushScope cenv).moved mv2 fr2 hm2 ext2) hna hva rel2
+            m₁ s₁ rs₁ env vid D f₀ m2 s2 rs3 _ _ _ ((hact.pushScope cenv).moved mv2 fr2 hm2 ext2) hna hva rel2
             (((hgen.rest hk1.1).mono (s' := s.pushScope) (FnsKeep.of_fns_eq rfl)).frame fr2.toFrame)
             (((hlo.mono hl1.1 (Nat.le_refl _)).app (lsOut_one .addScope _ _)).app
               (LsOut.app (hl1.2.below (Nat.le_refl _))
@@ -1122,7 +1253,7 @@ theorem tclaimE_succ {n : Nat} (hFE1 : FClaimE (n + 1)) (hXE1 : XClaimE (n + 1))
           ++ rb.1 ++ [Instr.removeScope]) = [Instr.addScope] ++ (ra.1 ++ rb.1) ++ [Instr.removeScope] := by simp
       simp only [hcode] at hseg hgen hlo ⊢
       rw [Ref.eval]
-      show SimT _ s₁ env D m s rs cenv (if true = true then
+      show SimT _ s₁ env D f₀ m s rs cenv (if true = true then
           (match Ref.evalLetSeq n bs rs.frames.length (Ref.newFrame rs cenv).2 with
            | .ok _ s => Ref.evalBegin n body rs.frames.length s
            | .err s => .err s | .brk l s => .brk l s | .cont l s => .cont l s | .timeout => .timeout)
@@ -1138,7 +1269,7 @@ theorem tclaimE_succ {n : Nat} (hFE1 : FClaimE (n + 1)) (hXE1 : XClaimE (n + 1))
         rw [h1] at hUl
         obtain ⟨s2, m2, r2, mv2, rel2, hm2, ext2, fr2⟩ := hUl
         have ihb := hB ex self body hbody hbl isFn _ gs1 (rb, gs2) hb hfn'' hex1 ps rest (hkn.keep hk1.1 rfl rfl) hps
-          m₁ s₁ rs₁ env vid D m2 s2 rs2 _ _ _ ((hact.pushScope cenv).moved mv2 fr2 hm2 ext2) hna hva rel2
+          m₁ s₁ rs₁ env vid D f₀ m2 s2 rs2 _ _ _ ((hact.pushScope cenv).moved mv2 fr2 hm2 ext2) hna hva rel2
           (((hgen.rest hk1.1).mono (s' := s.pushScope) (FnsKeep.of_fns_eq rfl)).frame fr2.toFrame)
           (((hlo.mono hl1.1 (Nat.le_refl _)).app (lsOut_one .addScope _ _)).app (hl1.2.below (Nat.le_refl _)))
           (hseg1.moved mv2 (c₁ := ra.1) (c₂ := rb.1) (post' := [.removeScope] ++ post) (by simp) rfl)
@@ -1149,7 +1280,7 @@ theorem tclaimE_succ {n : Nat} (hFE1 : FClaimE (n + 1)) (hXE1 : XClaimE (n + 1))
       | cont l rs2 => rw [h1] at hUl; exact hUl.elim
   | for_ l i t st b =>
     rw [Fz] at he
-    exact (simF_stmt hFE1 hXE1 he isFn c gs r hc hfn hex m s rs cenv pre post hrel hgen hlo hseg).toT
+    exact (simF_stmt hFE1 hXE1 (fs_of_stmt he) isFn c gs r hc hfn hex m s rs cenv pre post hrel hgen hlo hseg).toT
   | int v => rw [Fz] at he; exact hff he
   | bool v => rw [Fz] at he; exact hff he
   | str v => rw [Fz] at he; exact hff he
@@ -1161,7 +1292,15 @@ theorem tclaimE_succ {n : Nat} (hFE1 : FClaimE (n + 1)) (hXE1 : XClaimE (n + 1))
   | and_ es => rw [Fz] at he; exact hff he
   | or_ es => rw [Fz] at he; exact hff he
   | fn ps' rest body => rw [Fz] at he; exact hff he
-  | defn name ps' rest body => rw [Fz] at he; exact hff he
+  | defn name ps' rest' body =>
+    rw [Fz] at he
+    simp only [Bool.or_eq_true] at he
+    rcases he with he | he
+    · exact hff he
+    · simp only [Bool.and_eq_true, bne_iff_ne, ne_eq, decide_eq_true_eq, Bool.not_eq_true', List.isEmpty_eq_false_iff,
+        List.all_eq_true] at he
+      exact (simF_defnZ he.1.1.1.1.1.1 he.1.1.1.1.1.2 he.1.1.1.1.2 he.1.1.1.2 he.1.1.2 he.1.2 he.2 isFn c gs hex r hc m s rs cenv
+        pre post hrel hgen hseg).toT
   | assign _ _ => simp [Fz] at he
   | bad _ => simp [Fz] at he
   | break_ _ => simp [Fz] at he
@@ -1169,17 +1308,17 @@ theorem tclaimE_succ {n : Nat} (hFE1 : FClaimE (n + 1)) (hXE1 : XClaimE (n + 1))
 
 theorem tclaims_zero : TClaimV 0 ∧ TClaimE 0 ∧ TClaimB 0 ∧ TClaimC 0 ∧ TClaimN 0 := by
   refine ⟨?_, ?_, ?_, ?_, ?_⟩
-  · intro self args hargs isFn c f i gs r hc hfn hlz m s rs env pre post hrel hseg
-    rw [Ref.evalList]; trivial
-  · intro ex self e he isFn c gs r hc hfn hex ps rest hkn hps m₁ s₁ rs₁ env vid D m s rs cenv pre post hact hna hva hrel hgen hlo hseg
+  · intro self args hargs hfa isFn c f i gs r hc hfn lazyAt hlz m s rs env pre post hrel hseg
+    rw [Ref.evalArgs]; trivial
+  · intro ex self e he isFn c gs r hc hfn hex ps rest hkn hps m₁ s₁ rs₁ env vid D f₀ m s rs cenv pre post hact hna hva hrel hgen hlo hseg
     rw [Ref.eval]; trivial
-  · intro ex self es hne hes isFn c gs r hc hfn hex ps rest hkn hps m₁ s₁ rs₁ env vid D m s rs cenv pre post hact hna hva hrel hgen hlo
+  · intro ex self es hne hes isFn c gs r hc hfn hex ps rest hkn hps m₁ s₁ rs₁ env vid D f₀ m s rs cenv pre post hact hna hva hrel hgen hlo
       hseg
     rw [Ref.evalBegin]; trivial
-  · intro ex self arms d harms hd isFn c gs r gs0 rd hc hcd hfn hex hex0 ps rest hkn hkn0 hps m₁ s₁ rs₁ env vid D m s rs cenv pre post
+  · intro ex self arms d harms hd isFn c gs r gs0 rd hc hcd hfn hex hex0 ps rest hkn hkn0 hps m₁ s₁ rs₁ env vid D f₀ m s rs cenv pre post
       hact hna hva hrel hgen hgend hlo hlod hdl hseg
     rw [Ref.evalCond]; trivial
-  · intro ex self es hne hes isFn c oldtail gs r hc hfn hex ps rest hkn hps m₁ s₁ rs₁ env vid D m s rs cenv pre post hact hna hva hrel
+  · intro ex self es hne hes isFn c oldtail gs r hc hfn hex ps rest hkn hps m₁ s₁ rs₁ env vid D f₀ m s rs cenv pre post hact hna hva hrel
       hgen hlo hseg
     rw [Ref.evalBegin]; trivial
 
@@ -1190,7 +1329,7 @@ theorem vOk_mkList {m : Nat → Nat} {s : St} {rs : Ref.St} : ∀ (xs : List Val
   | x :: xs, h => valIn_pair (h x (List.mem_cons_self ..)) (vOk_mkList xs (fun w hw => h w (List.mem_cons_of_mem _ hw)))
 
 theorem fclaimU_succ {n : Nat} (hB : TClaimB n) : FClaimU (n + 1) := by
-  intro m s₁ rs₁ env vid c' vs₀ D hrel hg hcc hd₀ hvs₀ har
+  intro m s₁ rs₁ env vid c' vs₀ D f₀ hrel hg hcc hd₀ hvs₀ har
   obtain ⟨c, hc1, hrest, hnd, hokp, hbody, hparams, hnargs, hvar, huser, hel, _,
     t, b, tl, isFn, cb, gs0, gs1, self, hcode, htlt, htclo, hcomp, hsc0, hfname, ⟨ex, hff, hexg⟩, hgen, hkn⟩ := hg.clo
   have hcc' : c' = c := by rw [hcc] at hc1; injection hc1
@@ -1284,15 +1423,20 @@ theorem fclaimU_succ {n : Nat} (hB : TClaimB n) : FClaimU (n + 1) := by
   have hndz : ((F.zip vs).map (·.1)).Nodup := by rw [hzl]; exact hnd
   have hndz' : ((F.zip (vs.map (trf m))).map (·.1)).Nodup := by
     rw [List.map_fst_zip (by simp; omega)]; exact hnd
+  have hgW : GoodFn m (s₁.withCur f₀) rs₁ vid :=
+    hg.mono (FnsKeep.of_fns_eq rfl) (Nat.le_refl _) (fun _ _ => rfl) (RExt.refl _) rfl
+  have hvsW : ∀ w ∈ vs, VOk m (s₁.withCur f₀) rs₁ w := fun w hw =>
+    ValIn.mono (hvs w hw) (fun id hgd => hgd.mono (FnsKeep.of_fns_eq rfl) (Nat.le_refl _) (fun _ _ => rfl) (RExt.refl _) rfl)
   have relB : RelF m s₄ rsB rs₁.frames.length := by
-    refine hrel.enter hg (fun c' hc' => by rw [hc1] at hc'; injection hc' with hc'; rw [hc']) s₄ rsB t _ _ hsc4 hlin4 hfns4 hcur4 (by subst hs4; subst hs3; rfl) (by subst hs4; subst hs3; rfl)
+    refine hrel.enter hgW (fun c' hc' => by rw [hc1] at hc'; injection hc' with hc'; rw [hc']) s₄ rsB t _ _ hsc4 hlin4 hfns4 hcur4 (by subst hs4; subst hs3; rfl) (by subst hs4; subst hs3; rfl)
       hfrB hclB hhpB htrB htclo (fun y => ?_) (fun y v hv => ?_) (fun h hh => ?_) hloops4
+      (by subst hs4; subst hs3; rfl) (by rw [hfold])
     · rw [lookup_bindsVars, lookup_bindsVars, List.reverse_reverse, lookup_reverse_of_nodup _ hndz', lookup_zip_map]
       cases (F.zip vs).lookup y <;> rfl
     · rw [lookup_bindsVars, List.reverse_reverse] at hv
       cases hz : (F.zip vs).lookup y with
       | none => rw [hz] at hv; cases hv
-      | some w => rw [hz] at hv; injection hv with hv; subst hv; exact hvs w (lookup_zip_mem hz).2
+      | some w => rw [hz] at hv; injection hv with hv; subst hv; exact hvsW w (lookup_zip_mem hz).2
     · rw [lookup_bindsVars, lookup_reverse_of_nodup _ hndz', lookup_zip_none]
       · rfl
       · intro hm
@@ -1309,14 +1453,14 @@ theorem fclaimU_succ {n : Nat} (hB : TClaimB n) : FClaimU (n + 1) := by
   have hscl14 : s₁.scopes.length ≤ s₄.scopes.length := by rw [hsc4]; simp
   have hext1B : FramesExt rs₁ rsB := fun i fr hf =>
     ⟨fr, by rw [hfrB, List.getElem?_append_left (lt_of_getElem?_some hf)]; exact hf, rfl⟩
-  have hact : InAct m s₁ rs₁ env vid D cb.scopes m s₄ rsB :=
+  have hact : InAct m s₁ rs₁ env vid D f₀ cb.scopes m s₄ rsB :=
     ⟨hrel, hg, hcur4, haddr4, hsusp4, hd4, ⟨[], by rw [hlin4]; rfl, by rw [hsc0]; rfl⟩, by rw [hfns4]; exact Nat.le_refl _,
       fun id _ => by unfold fnOf; rw [hfns4], by rw [hloops4]; exact Nat.le_refl _, fun id _ => by rw [hloops4], hscl14, hfl14,
       MExt.refl _ _, ⟨hext1B, fun i c' hc' => by rw [hclB]; exact hc'⟩⟩
   have hlo4 : LsOut ([.addFuncScope t] ++ (F.map Instr.popStackPutEnv).reverse) gs0.loops.length gs1.loops.length :=
     fun l hl => by simp at hl
-  have hsim := hB ex self c'.body hbody hff isFn cb gs0 ((b, tl), gs1) hcomp hfname hexg c'.ps c'.rest hkn (hFe ▸ hokF) m s₁ rs₁ env vid D m s₄ rsB
-    rs₁.frames.length _ _ hact hnargs hvar relB (hgen.mono (FnsKeep.of_fns_eq hfns4 (LoopsExt.of_eq hloops4))) hlo4 hseg4
+  have hsim := hB ex self c'.body hbody hff isFn cb gs0 ((b, tl), gs1) hcomp hfname hexg c'.ps c'.rest hkn (hFe ▸ hokF) m s₁ rs₁ env vid D f₀ m s₄ rsB
+    rs₁.frames.length _ _ hact hnargs ⟨hvar, by rw [hFe]; exact hparams⟩ relB (hgen.mono (FnsKeep.of_fns_eq hfns4 (LoopsExt.of_eq hloops4))) hlo4 hseg4
   have hreach4 : ReachX ((enteredA s₁ vid c'.rest c'.ps.length vs₀ D)) s₄ := r2.trans r4
   cases hres : Ref.evalBegin n c'.body rs₁.frames.length rsB with
   | ok v' rs' =>
@@ -1359,7 +1503,8 @@ theorem fclaimU_succ {n : Nat} (hB : TClaimB n) : FClaimU (n + 1) := by
       ((hreach4.trans r5).trans r6).trans r7, rfl, by show s₅.data = _; rw [l5.data, hd4], hv5, ?_,
       fun id hid => hm5 id (by rw [hfns4]; exact hid), hrext, ?_, ?_⟩
     · exact hrel.back rel5 rfl rfl rfl rfl rfl rfl hflags hfl hfo hrext.1
-        ⟨by rw [← hloops4]; exact fr5.loopsLen, fun id hid => by rw [← hloops4]; exact fr5.loops id (by rw [hloops4]; exact hid)⟩
+        ⟨by show s₁.loops.length ≤ s₅.loops.length; rw [← hloops4]; exact fr5.loopsLen,
+          fun id hid => by show s₅.loops.getD id {} = s₁.loops.getD id {}; rw [← hloops4]; exact fr5.loops id (by rw [hloops4]; exact hid)⟩
     · exact ⟨⟨rfl, rfl, rfl, by show s₅.suspended = _; rw [fr5.susp, hsusp4], hfl, hfo,
         by show s₁.loops.length ≤ s₅.loops.length; rw [← hloops4]; exact fr5.loopsLen,
         fun id hid => by show s₅.loops.getD id {} = _; rw [← hloops4]; exact fr5.loops id (by rw [hloops4]; exact hid)⟩,
